@@ -427,6 +427,8 @@ Definition kfunc := list kblock.
 Definition k_nargs (f : kfunc) (b : Z) : nat :=
   match nth_error f (Z.to_nat b) with Some bl => List.length (k_args bl) | None => O end.
 
+(* repaired cond_br to one block: the operand itself when both edges pass the same one, else `select c t e` *)
+Definition k_sel (c t e : iopd) : kopd := if iopd_eqb t e then KO t else KSel c t e.
 (* the incomings one terminator adds (same add_incomings as conv_term; `fixed` = repaired cond_br) *)
 Definition k_term_phis (fixed : bool) (f : kfunc) (pt : phitab) (cur : Z) (t : kterm) : res phitab :=
   match t with
@@ -434,7 +436,7 @@ Definition k_term_phis (fixed : bool) (f : kfunc) (pt : phitab) (cur : Z) (t : k
   | KBr d args => add_incomings pt d 0 (k_nargs f d) (map KO args) cur
   | KCondBr c tb targs eb eargs =>
       if fixed && (tb =? eb) then
-        let os := map (fun p => KSel c (fst p) (snd p)) (combine targs eargs) in
+        let os := map (fun p => k_sel c (fst p) (snd p)) (combine targs eargs) in
         do pt1 <- add_incomings pt tb 0 (k_nargs f tb) os cur;
         add_incomings pt1 tb 0 (k_nargs f tb) os cur
       else
